@@ -181,7 +181,8 @@ fn call_parameters(
                 })?;
 
                 let arg_exp = Expected::new(*pos, arg);
-                let name = Name::from(&ctx.class(ty, *pos)?);
+                ctx.class(ty, *pos)?; // the classes of the declared type must exist
+                let name = ty.clone(); // keep the declared Name: it carries the nullable flag
                 constr.add(
                     "call parameters",
                     &Expected::new(*pos, &Type { name }),
